@@ -9,9 +9,9 @@ func init() {
 			{Pkg: "timed", Harness: "taskexec", Weight: 3},
 		},
 		QuickS: 30, ThoroughS: 900,
-		Rule:  "each run draws (queue) max size 0-3, shutdown flags, 1-2 adders x 1-3 elements with due times before/at/after now, cancels after a drawn number of steps, 1-3 pollers, a Shutdown caller; monotone size-bound leg: one adder with strictly increasing due times (the bound then drops the newcomer under any reading of 'furthest in the future'), Cancel of earlier handles incl. dropped ones in between, exact content model (Size after every call, delivered set at the end); (executor) 1-3 workers, jobs that sleep on the fake clock, cancels, shutdown flags; (taskexec) 1-2 workers, 1-3 actors x 1-4 ExecuteAt/Cancel on 2-3 identifiers, optionally WithMaxQueueSize(>= number of identifiers), which may never drop anything, with callbacks that sleep so that re-scheduling overlaps a running callback; the scheduler also offers clock stalls (1ms/20ms/2s) while tasks are runnable; distinct = distinct (workload, schedule, event log) hash; non-trivial = at least two recorded decisions",
-		Real:  []string{"runtime/timed (Queue, Executor, TaskExecutor, HeapKey)", "ds/generalheap, ds/shrinkingmap", "runtime/timeutil"},
-		Stubs: commonStubs,
+		Rule:   "each run draws (queue) max size 0-3, shutdown flags, 1-2 adders x 1-3 elements with due times before/at/after now, cancels after a drawn number of steps, 1-3 pollers, a Shutdown caller; monotone size-bound leg: one adder with strictly increasing due times (the bound then drops the newcomer under any reading of 'furthest in the future'), Cancel of earlier handles incl. dropped ones in between, exact content model (Size after every call, delivered set at the end); (executor) 1-3 workers, jobs that sleep on the fake clock, cancels, shutdown flags; (taskexec) 1-2 workers, 1-3 actors x 1-4 ExecuteAt/Cancel on 2-3 identifiers, optionally WithMaxQueueSize(>= number of identifiers), which may never drop anything, with callbacks that sleep so that re-scheduling overlaps a running callback; the scheduler also offers clock stalls (1ms/20ms/2s) while tasks are runnable; distinct = distinct (workload, schedule, event log) hash; non-trivial = at least two recorded decisions",
+		Real:   []string{"runtime/timed (Queue, Executor, TaskExecutor, HeapKey)", "ds/generalheap, ds/shrinkingmap", "runtime/timeutil"},
+		Stubs:  commonStubs,
 		Assume: []string{"delivery time is the fake clock read at delivery; timers fire only when the scheduler advances the clock", "before/after clauses are judged on non-overlapping call intervals (global step numbers); overlapping calls may go either way", "Shutdown termination is not an oracle (the statement does not require it); stuck pollers/shutdown are counted as probes"},
 	})
 }
